@@ -131,17 +131,26 @@ def prepare(tier, scratch):
     for c in cases:
         solver, timeout = ("z3", 900) if c["heavy"] else (None, 300)
         n = c["name"]
+        if n.startswith("i3_") and any(k in n for k in ("MUL", "DIV", "MOD")):
+            solver = "z3"  # also the immediate shapes: MiniSat gave no verdict in 300 s for mul/muls by -1 and by 0x7fffffff
         if n.startswith(("fp3_", "cv_")):
             # fp arithmetic / conversions through the interpreter: the operands live in the MIR_val_t union, so cbmc --fpa is not
             # usable ("flatten2bv of a non-constant FPA-encoded float is unsupported") and bit-blasted z3 gave no verdict in 900 s
             # for DMUL, DDIV, LDADD, LDSUB (FMUL 152 s, FDIV 222 s).  SAT (CaDiCaL) on CBMC's float encoding instead; the
             # double / long double multipliers and dividers and long double adders only in the thorough tier.
             solver, timeout = "cadical", 600
+            if n in ("fp3_FMUL", "fp3_FDIV"):  # measured under load: z3 152 s / 222 s, CaDiCaL 172 s / no verdict in 600 s
+                solver, timeout = "z3", 900
             if n in ("fp3_DMUL", "fp3_DDIV") or n.startswith("fp3_LD"):
                 if tier != "thorough":
                     DEFERRED.append("interp." + n)
                     continue
                 timeout = 1800
+        if c["heavy"] and c["group"] == "ovf" and tier != "thorough":
+            # mulo/umulo (+S) followed by bo/bno through the interpreter: 128-bit product on both sides, --paths + z3: no verdict within
+            # 10 minutes per case under load (measured); thorough tier only.  The *_imm1 shapes (finding F5) are not heavy and stay.
+            DEFERRED.append("interp." + n)
+            continue
         obs.append(Ob("interp." + n, "C02/interp.c", defs=["MIR_DIRECT_DISPATCH"], cc=["-I" + scratch], entry=c["entry"],
                       loops={"eval#0": 14}, unwind=12, checks="functional", timeout=timeout,
                       solver=solver, object_bits=10,
